@@ -84,7 +84,7 @@ EXTENDS StaticSem, Json
 
 \* Families: the bounded universes explored by one run.  A family is
 \*   [id, leaves (alphabet), maxtok, roots]; it is chosen in Init and never changes.
-CONSTANTS MaxDepth, Families, StoreByCopy, TailKeepsSets, SplitContinues, SkipEmpty, SplitCachesExport, SrcFRepass,
+CONSTANTS MaxDepth, Families, StoreByCopy, TailKeepsSets, SplitContinues, SkipEmpty, SkipGetters, SplitCachesExport, SrcFRepass,
           MFRunCopies, AlterApplied
 
 VARIABLES fam,     \* the family of this behaviour
@@ -105,11 +105,13 @@ VARIABLES fam,     \* the family of this behaviour
           first    \* gen 2: what the first execution ended with
 vars == <<fam, els, eff, open, st, pol, phase, gctx, rt, peek, vin, gen, script, disk, first>>
 \* tokens evaluated so far: every leaf and every bracket is an object or still open
-ntok == Len(els) + Len(open)
+\* (with object sharing: every position at which an object is placed counts)
+ntok == IF fam.share = {} THEN Len(els) + Len(open) ELSE Len(open) + SumCh(els) + SumCh(open)
 
 \* cset / cctx: only used by the defect model SplitCachesExport (a Split that keeps the first
 \* intersection it computed)
-St0 == [has |-> FALSE, ctx |-> Empty, exc |-> "", nm |-> <<>>, cset |-> FALSE, cctx |-> Empty]
+\* fv: only used by the defect model fam.setcaches (a SetContext that keeps the value it formatted first)
+St0 == [has |-> FALSE, ctx |-> Empty, exc |-> "", nm |-> <<>>, cset |-> FALSE, cctx |-> Empty, fv |-> <<>>]
 NoRes == [ctx |-> Empty, exc |-> ""]
 
 HasSet(k) == k \in {"set", "store", "ucfs", "mf", "mfd", "mfe", "write", "cache", "seq", "src", "srcf", "split"}
@@ -162,10 +164,14 @@ GetAndCache(E, p, e, s) ==
 \* Result [s, al, exc]: exc # "" means LenaKeyError(exc) propagates to the caller.
 SetCtx(E, p, e, c, al, s) ==
   CASE E[e].k = "set" ->
-         LET r == Eval(E[e].v, c) IN
+         \* defect model setcaches: the value formatted first is used at every later call - an
+         \* object placed at two positions is resolved against the other position's prefix
+         LET r == IF fam.setcaches /\ s[e].fv # <<>>
+                  THEN [ok |-> TRUE, v |-> s[e].fv[1], key |-> "", keys |-> {}] ELSE Eval(E[e].v, c)
+             fv2 == IF fam.setcaches /\ E[e].v.t = "fmt" THEN <<r.v>> ELSE s[e].fv IN
          IF r.ok
          THEN LET c2 == Put(c, E[e].p, r.v) IN
-              [s |-> [j \in DOMAIN s |-> IF j = e THEN [s[j] EXCEPT !.has = TRUE, !.ctx = c2]
+              [s |-> [j \in DOMAIN s |-> IF j = e THEN [s[j] EXCEPT !.has = TRUE, !.ctx = c2, !.fv = fv2]
                                          ELSE IF j \in al THEN [s[j] EXCEPT !.ctx = c2] ELSE s[j]],
                al |-> al, exc |-> ""]
          ELSE [s |-> [s EXCEPT ![e].exc = r.key], al |-> al, exc |-> r.key]
@@ -208,7 +214,11 @@ SeqLoop(E, p, ch, c, al, s) ==
   IF ch = <<>> THEN [s |-> s, al |-> al, exc |-> "", raise |-> FALSE, ctx |-> c]
   ELSE LET e == Head(ch)
            \* "if hasattr(el, '_set_context') and context" (SkipEmpty = FALSE: without "and context")
-           r1 == IF HasSet(E[e].k) /\ (c # Empty \/ ~SkipEmpty) THEN SetCtx(E, p, e, c, al, s)
+           \* SkipGetters = TRUE: as written, whatever the element; FALSE: only elements without
+           \* _get_context are skipped - an element that answers _get_context() next (SetContext,
+           \* nested sequence) would otherwise answer with what it resolved at ANOTHER position
+           r1 == IF HasSet(E[e].k) /\ (c # Empty \/ ~SkipEmpty \/ (~SkipGetters /\ HasGet(E[e].k)))
+                 THEN SetCtx(E, p, e, c, al, s)
                  ELSE [s |-> s, al |-> al, exc |-> ""]
        IN
     IF r1.exc # "" THEN [s |-> r1.s, al |-> r1.al, exc |-> r1.exc, raise |-> FALSE, ctx |-> c]
@@ -406,6 +416,19 @@ Place(leaf, newpol) ==
   /\ open' = AddChild(open, Len(els) + 1)
   /\ UNCHANGED <<fam, eff, phase, gctx, rt, peek, vin, gen, disk, first>>
 
+\* Reuse(j): an object that exists already (a leaf or a finished Sequence) is named once more as
+\* an argument of the bracket being evaluated: ONE object at two positions of the program.  No
+\* constructor runs; the enclosing constructors will thread their contexts through it once per
+\* position.
+Reuse(j) ==
+  /\ phase = "build" /\ fam.share # {} /\ ntok < fam.maxtok /\ open # <<>>
+  /\ j \in 1..Len(els) /\ els[j].k \in fam.share
+  /\ IF Top.k = "split" THEN els[j].k = "seq" /\ ~Top.gen
+     ELSE IF NoGenYet(Top) THEN els[j].k \in {"set", "store"}
+     ELSE els[j].k \notin {"acc", "src", "srcf", "split"}
+  /\ open' = AddChild(open, j)
+  /\ UNCHANGED <<fam, els, eff, st, pol, phase, gctx, rt, peek, vin, gen, disk, first>>
+
 \* Close(pk): the constructor of the innermost open bracket runs; pk = TRUE: its _get_context() is
 \* requested at once (before the object is placed anywhere) - at most once per behaviour
 Close(pk) ==
@@ -469,6 +492,8 @@ Build == \/ /\ gen = 1
             /\ \E t \in Tokens : Do(t) /\ script' = (IF fam.again THEN Append(script, t) ELSE script)
          \/ /\ gen = 2 /\ script # <<>>
             /\ Do(Head(script)) /\ script' = Tail(script)
+         \/ /\ gen = 1 /\ ~fam.again
+            /\ \E j \in 1..Len(els) : Reuse(j) /\ script' = script
 Next == Build \/ UseRoot \/ Again
 Spec == Init /\ [][Next]_vars
 Done == phase = "done"
@@ -486,18 +511,37 @@ HoldsExpected(i, in) ==
          LET x == NameOf(els, i, in) IN (~x.free /\ x.ok) => (st[i].has /\ st[i].nm = x.s)
     [] OTHER -> TRUE
 
+\* A Split keeps no context of its own: _get_context() intersects what its branches hold at the
+\* moment it is asked.  The enclosing sequence asks right after handing the context over (that is
+\* what the followers see - checked through them); asked again later, a Split with an object
+\* below it that is also placed elsewhere answers with that object's latest position: not fixed.
+RECURSIVE OccSum(_, _)
+OccSum(s, x) == IF s = <<>> THEN 0
+                ELSE Cardinality({j \in 1..Len(Head(s).ch) : Head(s).ch[j] = x}) + OccSum(Tail(s), x)
+Occ(x) == OccSum(els, x) + OccSum(open, x)
+LiveShared(n) == fam.share # {} /\ els[n].k = "split" /\ \E x \in Below(els, n) \ {n} : Occ(x) > 1
 \* a sequence / Split that received a context exports the fold, or raises naming the key
 ExportsExpected(n, in) ==
-  IsNode(els[n]) /\ ~in.err =>
+  IsNode(els[n]) /\ ~in.err /\ ~LiveShared(n) =>
     LET out == OutOf(els, pol, n, in) g == Get1(Eff, pol, n, st) IN
     IF out.err THEN g.exc = out.key /\ g.exc \in Unresolved(els, pol, n, in) ELSE g.exc = "" /\ g.ctx = out.ctx
 
 \* SeenIsExpected, at every step: inside every completed component every element holds the
 \* fold relative to that component (which so far received nothing from outside)
-SeenIsExpected ==
+SeenIsExpectedTree ==
   \A r \in Components :
     LET w == Walk(els, pol, {}, r, Empty) IN
     \A i \in DOMAIN w.acc : HoldsExpected(i, w.acc[i]) /\ ExportsExpected(i, w.acc[i])
+\* With object sharing an object has one fold per position (InsOf).  An object that occurs
+\* once (below objects that occur once) is held to its fold exactly as above: the observers that
+\* follow an occurrence of a shared object in the same branch see the value RESOLVED for that
+\* occurrence.  A shared object itself necessarily holds one context: one of its positions'.
+InsAll(i) == UNION {InsOf(els, pol, r, Empty, i) : r \in Components}
+SeenIsExpectedShared ==
+  \A i \in UNION {Below(els, r) : r \in Components} :
+    LET ins == InsAll(i) IN
+    (\A in \in ins : ~in.err) => \E in \in ins : HoldsExpected(i, in) /\ ExportsExpected(i, in)
+SeenIsExpected == IF fam.share = {} THEN SeenIsExpectedTree ELSE SeenIsExpectedShared
 
 \* Causal: evaluating later elements, or finishing a constructor, changes nothing that an
 \* object outside the finished constructor's own subtree holds
@@ -541,7 +585,7 @@ RECURSIVE Ancestors(_, _)
 Ancestors(E, i) == LET ps == {n \in 1..Len(E) : i \in Range(E[n].ch)} IN
                    ps \cup UNION {Ancestors(E, n) : n \in ps}
 PrefixOnly ==
-  phase = "built" =>
+  (phase = "built" /\ fam.share = {}) =>
     LET full == Walk(els, pol, {}, Root, Empty).acc IN
     \A i \in DOMAIN full :
        LET later == {j \in (i + 1)..Len(els) : j \notin Ancestors(els, i)} IN
@@ -550,7 +594,7 @@ PrefixOnly ==
 \* ... nor at the other branches of the Splits that enclose i (also not at an unresolved key in
 \* one of them)
 SiblingIndependent ==
-  phase = "built" =>
+  (phase = "built" /\ fam.share = {}) =>
     LET full == Walk(els, pol, {}, Root, Empty).acc IN
     \A i \in DOMAIN full :
        LET anc == Ancestors(els, i) \cup {i}
@@ -568,8 +612,13 @@ RootExpected ==
 ExpSeen == LET w == Walk(els, pol, {}, Root, Empty).acc IN
            [j \in 1..Len(els) |-> IF j \in DOMAIN w THEN w[j].ctx ELSE Empty]
 NoErr == ~OutOf(els, pol, Root, Cur(Empty)).err
+\* a shared UpdateContextFromStatic / MakeFilename whose positions receive different contexts
+\* holds one of them: what it yields at the other positions is not fixed by the statement
+SharedRunner == \E i \in 1..Len(els) : /\ (els[i].k = "ucfs" \/ IsMF(els[i].k))
+                                        /\ Cardinality(InsOf(els, pol, Len(els), Empty, i)) > 1
+RunFixed == NoErr /\ (fam.share = {} \/ ~SharedRunner)
 NoLeakToRuntime ==
-  Done => /\ NoErr => rt \in RunReadings(els, vin, ExpSeen)
+  Done => /\ RunFixed => rt \in RunReadings(els, vin, ExpSeen)
           \* without UpdateContextFromStatic a value leaves with the context it came with
           \* (MakeFilename adds to "output" only)
           /\ (\A j \in 1..Len(els) : els[j].k # "ucfs") =>
@@ -632,7 +681,9 @@ LeavesWide == LeavesFull \cup LeavesFocus3b \cup LeavesFocus4
 (***************************************************************************)
 Fam(id, leaves, maxtok, roots) == [id |-> id, leaves |-> leaves, maxtok |-> maxtok, roots |-> roots, depth |-> 3,
                                    srcf |-> FALSE, peek |-> FALSE, rtins |-> {RTIn}, again |-> FALSE,
-                                   nodes |-> {"seq", "src", "srcf", "split"}]
+                                   nodes |-> {"seq", "src", "srcf", "split"},
+                                   \* share: kinds of objects that may be placed at several positions
+                                   share |-> {}, setcaches |-> FALSE]
 FamD(id, leaves, maxtok, roots, depth) == [Fam(id, leaves, maxtok, roots) EXCEPT !.depth = depth]
 \* context requested before placement (stale caches); Source whose generator exports context
 LeavesFocus6 == {SetC(KA, "int", "1"), Plain("store")}
@@ -687,6 +738,25 @@ FamMFShare == {FamIn("mfshare", LeavesFocus9, 3, SeqRoot, RTIns)}
 \* and drops re-initialises the elements after a filled Cache with {})
 FamNoSkip2 == {FamAgain("noskip2", LeavesFocus10q, 5, SplitRoot, {"seq", "split"})}
 FamAlter == {FamAgain("alter", LeavesFocus10q, 5, SplitRoot, {"seq", "split"})}
+(***************************************************************************)
+(*  F11 element OBJECT SHARING (action Reuse): one formatting / constant   *)
+(*      SetContext, StoreContext, UpdateContextFromStatic, MakeFilename or *)
+(*      nested Sequence object at two or more positions (two Split         *)
+(*      branches, a nested sequence and its encloser, twice in a row).     *)
+(***************************************************************************)
+SetFca == SetF(KC, <<Fld(KA)>>)
+LeavesShare == {SetC(KA, "int", "1"), SetC(KA, "int", "2"), SetFca, Plain("store")}
+LeavesShare2 == {SetC(KA, "int", "1"), SetC(KA, "int", "2"), SetFca, Plain("store"), Plain("ucfs"),
+                 Consumer("mf", <<Fld(KC)>>)}
+ShareLeaves == {"set", "store", "ucfs", "mf"}
+FamShare(id, leaves, maxtok, roots, nodes, share) ==
+  [Fam(id, leaves, maxtok, roots) EXCEPT !.nodes = nodes, !.share = share]
+FamShareQ == {FamShare("S1", LeavesShare2, 5, SeqRoot, {"seq"}, ShareLeaves),
+              FamShare("S2", LeavesShare, 5, SeqRoot, {"seq", "split"}, {"set", "seq"})}
+FamShareT == {FamShare("S1", LeavesShare2, 6, SeqRoot, {"seq", "split"}, ShareLeaves \cup {"seq"}),
+              FamShare("S2", LeavesShare, 7, SeqRoot, {"seq", "split"}, {"set"})}
+\* guard: a SetContext that keeps the value it formatted first
+FamShareCache == {[FamShare("sharecache", LeavesShare, 6, SeqRoot, {"seq"}, {"set"}) EXCEPT !.setcaches = TRUE]}
 FamQuick == {Fam("A4", LeavesQuick, 4, AllRoots), Fam("B5", LeavesB, 5, SeqRoots),
              Fam("F1", LeavesFocus1, 6, SeqRoot), Fam("F2", LeavesFocus2, 5, SeqRoot),
              Fam("F3", LeavesFocus3b, 4, SeqRoot), Fam("F4", LeavesFocus4, 4, SeqRoots),
@@ -728,7 +798,7 @@ ObsOf(i, in) ==
     [] IsMF(els[i].k) \/ els[i].k \in {"write", "cache"} ->
          LET x == NameOf(els, i, in) IN [free |-> x.free, ctx |-> in.ctx, ok |-> x.ok, s |-> x.s, key |-> "", un |-> {}]
     [] IsNode(els[i]) ->
-         LET o == OutOf(els, pol, i, in) IN [free |-> in.err, ctx |-> o.ctx, ok |-> ~o.err, s |-> <<>>, key |-> o.key,
+         LET o == OutOf(els, pol, i, in) IN [free |-> in.err \/ LiveShared(i), ctx |-> o.ctx, ok |-> ~o.err, s |-> <<>>, key |-> o.key,
                                                  un |-> IF o.err THEN Unresolved(els, pol, i, in) ELSE {}]
     [] OTHER -> [free |-> TRUE, ctx |-> Empty, ok |-> TRUE, s |-> <<>>, key |-> "", un |-> {}]
 \* for diagnosis only: the contexts that later positions of the same sequence receive
@@ -745,8 +815,11 @@ LateOf(i, w) ==
 Expectation ==
   LET w == Walk(els, pol, {}, Root, Empty).acc IN
   [fam |-> fam.id, els |-> els, pol |-> pol, peek |-> peek,
-   obs |-> [i \in 1..Len(els) |-> ObsOf(i, w[i]) @@ [late |-> LateOf(i, w)]],
-   noerr |-> NoErr,
+   \* alt: with object sharing, the expectation of every position of the object
+   obs |-> [i \in 1..Len(els) |-> ObsOf(i, w[i]) @@
+              [late |-> LateOf(i, w),
+               alt |-> IF fam.share = {} THEN {} ELSE {ObsOf(i, in) : in \in InsOf(els, pol, Root, Empty, i)}]],
+   noerr |-> RunFixed, share |-> fam.share # {},
    vin |-> IF vin = RTIn THEN <<>> ELSE vin,      \* <<>>: the default values
    gens |-> gen, files |-> IF fam.again THEN disk ELSE {},
    \* rt: what the machine produced (the reading of the code, "top"; NoLeakToRuntime compares it
